@@ -1,6 +1,515 @@
-//! Harness for property C03 (stub: not built yet).
+//! C03 — filters follow set algebra; a bounded page is an end of the full result.
+//!
+//! Case = a small collection (indexed values *not* correlated with ids: duplicates, arrays,
+//! missing values, id gaps from removals) + a batch of queries (filter trees over `_id` and every
+//! B-tree index, RangeQuery trees inside `Field`, limits around 0 / n / MAX, both entry points,
+//! `query_all_ids`, and `search_ids` with BM25 candidates).
+//!
+//! * correspondence: the same queries are sent to the Lean model (`drv_c03`), whose state is the
+//!   id set and the key ↦ posting relation the harness derives from the documents;
+//! * oracle (independent of the model): `BTreeSet` evaluation of the set-algebra reading,
+//!   then take / take-from-the-end.
+use anda_db::{
+    collection::{Collection, CollectionConfig},
+    database::{AndaDB, DBConfig},
+    error::DBError,
+    query::{Filter, Query, RangeQuery, Search},
+    schema::{AndaDBSchema, Fv},
+    storage::StorageConfig,
+};
+use object_store::memory::InMemory;
+use serde::{Deserialize, Serialize};
+use std::collections::{BTreeMap, BTreeSet};
+use std::sync::Arc;
+use vh_common::serde_json::json;
+use vh_common::*;
+
+#[derive(Debug, Clone, Serialize, Deserialize, AndaDBSchema)]
+struct Doc {
+    _id: u64,
+    a: u64,
+    b: Option<i64>,
+    tags: Vec<u64>,
+    txt: String,
+}
+
+const WORDS: [&str; 6] = ["alpha", "beta", "gamma", "delta", "omega", "sigma"];
+const MAX: usize = 1000;
+
+// ------------------------------------------------------------------------------------------
+// query AST (harness side)
+// ------------------------------------------------------------------------------------------
+
+#[derive(Clone, Debug)]
+enum Rq {
+    Eq(i64), Gt(i64), Ge(i64), Lt(i64), Le(i64), Bt(i64, i64), In(Vec<i64>),
+    And(Vec<Rq>), Or(Vec<Rq>), Not(Box<Rq>),
+}
+
+#[derive(Clone, Debug)]
+enum Fl {
+    Id(Rq),
+    Field(usize, Rq), // 0 = a, 1 = b, 2 = tags, 9 = unknown index
+    Or(Vec<Fl>), And(Vec<Fl>), Not(Box<Fl>),
+}
+
+fn index_name(ix: usize) -> &'static str {
+    match ix { 0 => "a", 1 => "b", 2 => "tags", _ => "nope" }
+}
+
+impl Rq {
+    fn line(&self) -> String {
+        match self {
+            Rq::Eq(k) => format!("eq {k}"), Rq::Gt(k) => format!("gt {k}"), Rq::Ge(k) => format!("ge {k}"),
+            Rq::Lt(k) => format!("lt {k}"), Rq::Le(k) => format!("le {k}"), Rq::Bt(a, b) => format!("bt {a} {b}"),
+            Rq::In(ks) => format!("in {}{}", ks.len(), ks.iter().map(|k| format!(" {k}")).collect::<String>()),
+            Rq::And(qs) => format!("and {}{}", qs.len(), qs.iter().map(|q| format!(" {}", q.line())).collect::<String>()),
+            Rq::Or(qs) => format!("or {}{}", qs.len(), qs.iter().map(|q| format!(" {}", q.line())).collect::<String>()),
+            Rq::Not(q) => format!("not {}", q.line()),
+        }
+    }
+    fn parse(t: &mut std::slice::Iter<'_, &str>) -> Option<Rq> {
+        let k = |t: &mut std::slice::Iter<'_, &str>| t.next()?.parse::<i64>().ok();
+        Some(match *t.next()? {
+            "eq" => Rq::Eq(k(t)?), "gt" => Rq::Gt(k(t)?), "ge" => Rq::Ge(k(t)?), "lt" => Rq::Lt(k(t)?), "le" => Rq::Le(k(t)?),
+            "bt" => Rq::Bt(k(t)?, k(t)?),
+            "in" => { let n = k(t)? as usize; let mut v = vec![]; for _ in 0..n { v.push(k(t)?) } Rq::In(v) }
+            "and" => { let n = k(t)? as usize; let mut v = vec![]; for _ in 0..n { v.push(Rq::parse(t)?) } Rq::And(v) }
+            "or" => { let n = k(t)? as usize; let mut v = vec![]; for _ in 0..n { v.push(Rq::parse(t)?) } Rq::Or(v) }
+            "not" => Rq::Not(Box::new(Rq::parse(t)?)),
+            _ => return None,
+        })
+    }
+    /// `signed`: the index holds i64 keys (field `b`), otherwise u64.
+    fn real(&self, signed: bool) -> RangeQuery<Fv> {
+        let fv = |k: &i64| if signed { Fv::I64(*k) } else { Fv::U64((*k).max(0) as u64) };
+        match self {
+            Rq::Eq(k) => RangeQuery::Eq(fv(k)), Rq::Gt(k) => RangeQuery::Gt(fv(k)), Rq::Ge(k) => RangeQuery::Ge(fv(k)),
+            Rq::Lt(k) => RangeQuery::Lt(fv(k)), Rq::Le(k) => RangeQuery::Le(fv(k)), Rq::Bt(a, b) => RangeQuery::Between(fv(a), fv(b)),
+            Rq::In(ks) => RangeQuery::Include(ks.iter().map(fv).collect()),
+            Rq::And(qs) => RangeQuery::And(qs.iter().map(|q| Box::new(q.real(signed))).collect()),
+            Rq::Or(qs) => RangeQuery::Or(qs.iter().map(|q| Box::new(q.real(signed))).collect()),
+            Rq::Not(q) => RangeQuery::Not(Box::new(q.real(signed))),
+        }
+    }
+    /// oracle: does key `k` satisfy the predicate (documented semantics: inverted Between and
+    /// empty And/Or match nothing)
+    fn sat(&self, k: i64) -> bool {
+        match self {
+            Rq::Eq(v) => k == *v, Rq::Gt(v) => k > *v, Rq::Ge(v) => k >= *v, Rq::Lt(v) => k < *v, Rq::Le(v) => k <= *v,
+            Rq::Bt(a, b) => a <= b && *a <= k && k <= *b,
+            Rq::In(ks) => ks.contains(&k),
+            Rq::And(qs) => !qs.is_empty() && qs.iter().all(|q| q.sat(k)),
+            Rq::Or(qs) => qs.iter().any(|q| q.sat(k)),
+            Rq::Not(q) => !q.sat(k),
+        }
+    }
+    fn nonneg(&self) -> bool {
+        match self {
+            Rq::Eq(k) | Rq::Gt(k) | Rq::Ge(k) | Rq::Lt(k) | Rq::Le(k) => *k >= 0,
+            Rq::Bt(a, b) => *a >= 0 && *b >= 0,
+            Rq::In(ks) => ks.iter().all(|k| *k >= 0),
+            Rq::And(qs) | Rq::Or(qs) => qs.iter().all(|q| q.nonneg()),
+            Rq::Not(q) => q.nonneg(),
+        }
+    }
+}
+
+impl Fl {
+    fn line(&self) -> String {
+        match self {
+            Fl::Id(q) => format!("I {}", q.line()),
+            Fl::Field(ix, q) => format!("F {ix} {}", q.line()),
+            Fl::Or(fs) => format!("O {}{}", fs.len(), fs.iter().map(|f| format!(" {}", f.line())).collect::<String>()),
+            Fl::And(fs) => format!("A {}{}", fs.len(), fs.iter().map(|f| format!(" {}", f.line())).collect::<String>()),
+            Fl::Not(f) => format!("N {}", f.line()),
+        }
+    }
+    fn parse(t: &mut std::slice::Iter<'_, &str>) -> Option<Fl> {
+        Some(match *t.next()? {
+            "I" => Fl::Id(Rq::parse(t)?),
+            "F" => { let ix = t.next()?.parse().ok()?; Fl::Field(ix, Rq::parse(t)?) }
+            "O" => { let n: usize = t.next()?.parse().ok()?; let mut v = vec![]; for _ in 0..n { v.push(Fl::parse(t)?) } Fl::Or(v) }
+            "A" => { let n: usize = t.next()?.parse().ok()?; let mut v = vec![]; for _ in 0..n { v.push(Fl::parse(t)?) } Fl::And(v) }
+            "N" => Fl::Not(Box::new(Fl::parse(t)?)),
+            _ => return None,
+        })
+    }
+    fn real(&self) -> Filter {
+        match self {
+            Fl::Id(q) => { assert!(q.nonneg(), "negative bound on an unsigned key space"); Filter::Field(("_id".to_string(), q.real(false))) }
+            Fl::Field(ix, q) => { assert!(*ix == 1 || q.nonneg(), "negative bound on an unsigned key space"); Filter::Field((index_name(*ix).to_string(), q.real(*ix == 1))) }
+            Fl::Or(fs) => Filter::Or(fs.iter().map(|f| Box::new(f.real())).collect()),
+            Fl::And(fs) => Filter::And(fs.iter().map(|f| Box::new(f.real())).collect()),
+            Fl::Not(f) => Filter::Not(Box::new(f.real())),
+        }
+    }
+    fn uses_unknown_index(&self) -> bool {
+        match self {
+            Fl::Id(_) => false,
+            Fl::Field(ix, _) => *ix > 2,
+            Fl::Or(fs) | Fl::And(fs) => fs.iter().any(|f| f.uses_unknown_index()),
+            Fl::Not(f) => f.uses_unknown_index(),
+        }
+    }
+    /// "top-level bare B-tree field" — the call shape of finding F-C03-1
+    fn is_bare_btree_field(&self) -> bool {
+        matches!(self, Fl::Field(ix, _) if *ix <= 2)
+    }
+    /// oracle: set-algebra reading over the live documents
+    fn sat(&self, st: &RefState, id: u64) -> bool {
+        match self {
+            Fl::Id(q) => st.docs.contains_key(&id) && q.sat(id as i64),
+            Fl::Field(ix, q) => st.docs.get(&id).is_some_and(|d| keys_of(d, *ix).iter().any(|k| q.sat(*k))),
+            Fl::Or(fs) => fs.iter().any(|f| f.sat(st, id)),
+            Fl::And(fs) => !fs.is_empty() && fs.iter().all(|f| f.sat(st, id)),
+            Fl::Not(f) => st.docs.contains_key(&id) && !f.sat(st, id),
+        }
+    }
+    fn shape(&self) -> &'static str {
+        match self { Fl::Id(_) => "id", Fl::Field(..) => "field", Fl::Or(_) => "or", Fl::And(_) => "and", Fl::Not(_) => "not" }
+    }
+}
+
+fn keys_of(d: &Doc, ix: usize) -> Vec<i64> {
+    match ix {
+        0 => vec![d.a as i64],
+        1 => d.b.into_iter().collect(),
+        2 => d.tags.iter().map(|t| *t as i64).collect(),
+        _ => vec![],
+    }
+}
+
+#[derive(Default, Clone)]
+struct RefState {
+    docs: BTreeMap<u64, Doc>,
+}
+
+impl RefState {
+    /// the model's state lines: ids + key ↦ postings for each index
+    fn model_lines(&self) -> Vec<String> {
+        let mut out = vec!["reset".to_string(), format!("ids {}", if self.docs.is_empty() { "-".into() } else { join(self.docs.keys(), ",") })];
+        for ix in 0..3 {
+            let mut m: BTreeMap<i64, BTreeSet<u64>> = BTreeMap::new();
+            for (id, d) in &self.docs {
+                for k in keys_of(d, ix) {
+                    m.entry(k).or_default().insert(*id);
+                }
+            }
+            let mut l = format!("idx {ix}");
+            for (k, ids) in m {
+                l.push_str(&format!(" {k}:{}", join(ids, ",")));
+            }
+            out.push(l);
+        }
+        out
+    }
+}
+
+// ------------------------------------------------------------------------------------------
+// generation
+// ------------------------------------------------------------------------------------------
+
+fn gen_rq(r: &mut Rng, depth: u32, lo: i64, hi: i64) -> Rq {
+    let k = |r: &mut Rng| r.range(lo - 1, hi + 1);
+    let leaf = depth == 0 || r.chance(3, 5);
+    if leaf {
+        match r.below(8) {
+            0 => Rq::Eq(k(r)), 1 => Rq::Gt(k(r)), 2 => Rq::Ge(k(r)), 3 => Rq::Lt(k(r)), 4 => Rq::Le(k(r)),
+            5 => { let a = k(r); let b = k(r); if r.chance(4, 5) { Rq::Bt(a.min(b), a.max(b)) } else { Rq::Bt(a.max(b), a.min(b)) } }
+            _ => { let n = r.usize(5); Rq::In((0..n).map(|_| k(r)).collect()) }
+        }
+    } else {
+        match r.below(5) {
+            0 | 1 => { let n = r.usize(4); Rq::And((0..n).map(|_| gen_rq(r, depth - 1, lo, hi)).collect()) }
+            2 | 3 => { let n = r.usize(4); Rq::Or((0..n).map(|_| gen_rq(r, depth - 1, lo, hi)).collect()) }
+            _ => Rq::Not(Box::new(gen_rq(r, depth - 1, lo, hi))),
+        }
+    }
+}
+
+fn gen_fl(r: &mut Rng, depth: u32, max_id: i64, allow_unknown: bool) -> Fl {
+    let leaf = depth == 0 || r.chance(2, 5);
+    if leaf {
+        match r.below(if allow_unknown { 41 } else { 40 }) {
+            // unsigned key spaces (`_id`, a, tags): bounds from 0; signed (b): negatives too
+            0..=9 => Fl::Id(gen_rq(r, 2, 1, max_id)),
+            10..=19 => Fl::Field(0, gen_rq(r, 2, 1, 8)),
+            20..=29 => Fl::Field(1, gen_rq(r, 2, -5, 5)),
+            30..=39 => Fl::Field(2, gen_rq(r, 2, 1, 6)),
+            _ => Fl::Field(9, Rq::Eq(1)),
+        }
+    } else {
+        match r.below(5) {
+            0 | 1 => { let n = r.usize(4); Fl::And((0..n).map(|_| gen_fl(r, depth - 1, max_id, allow_unknown)).collect()) }
+            2 | 3 => { let n = r.usize(4); Fl::Or((0..n).map(|_| gen_fl(r, depth - 1, max_id, allow_unknown)).collect()) }
+            _ => Fl::Not(Box::new(gen_fl(r, depth - 1, max_id, allow_unknown))),
+        }
+    }
+}
+
+fn gen_case(r: &mut Rng) -> Vec<String> {
+    let n = 3 + r.usize(10);
+    let mut ops = vec![];
+    for _ in 0..n {
+        let a = r.below(9);
+        let b = if r.chance(1, 4) { "-".to_string() } else { r.range(-5, 5).to_string() };
+        let nt = r.usize(4);
+        let tags: Vec<u64> = (0..nt).map(|_| r.below(7)).collect();
+        let nw = 1 + r.usize(3);
+        let words: Vec<&str> = (0..nw).map(|_| *r.pick(&WORDS)).collect();
+        ops.push(format!("doc {a} {b} {} {}", if tags.is_empty() { "-".into() } else { join(tags, ",") }, words.join("_")));
+    }
+    let nrm = r.usize(n / 3 + 1);
+    for _ in 0..nrm {
+        ops.push(format!("rm {}", 1 + r.usize(n)));
+    }
+    let nq = 24;
+    for _ in 0..nq {
+        let unk = r.chance(1, 12);
+        let f = gen_fl(r, 3, n as i64, unk);
+        let lim = match r.below(10) {
+            0 => "none".to_string(), 1 => "0".to_string(), 2 => (MAX + 1).to_string(), 3 => (n + 1).to_string(),
+            _ => (1 + r.usize(n)).to_string(),
+        };
+        match r.below(8) {
+            0 => ops.push(format!("q all - {}", f.line())),
+            1..=3 => ops.push(format!("q first {lim} {}", f.line())),
+            4..=6 => ops.push(format!("q last {lim} {}", f.line())),
+            _ => ops.push(format!("s {} {} {}", 1 + r.usize(n), r.pick(&WORDS), f.line())),
+        }
+    }
+    ops
+}
+
+// ------------------------------------------------------------------------------------------
+// running a case
+// ------------------------------------------------------------------------------------------
+
+fn fmt_res(r: &Result<Vec<u64>, DBError>) -> String {
+    match r {
+        Ok(v) => format!("ok {}", if v.is_empty() { "-".to_string() } else { join(v, ",") }),
+        Err(DBError::Index { .. }) => "err:noindex".into(),
+        Err(e) => format!("err:other({e})").replace('\n', " "),
+    }
+}
+
+struct Outcome {
+    /// per query op: (op line, implementation answer, model request line, oracle answer or None when the oracle abstains)
+    rows: Vec<(String, String, String, Option<String>)>,
+    nontrivial: bool,
+}
+
+async fn open_collection() -> Result<(AndaDB, Arc<Collection>), DBError> {
+    let db = AndaDB::connect(
+        Arc::new(InMemory::new()),
+        DBConfig { name: "c03".into(), description: String::new(), storage: StorageConfig { compress_level: 0, ..Default::default() }, lock: None },
+    )
+    .await?;
+    let c = db
+        .open_or_create_collection(Doc::schema()?, CollectionConfig { name: "c".into(), description: String::new() }, async |c| {
+            c.create_btree_index_nx(&["a"]).await?;
+            c.create_btree_index_nx(&["b"]).await?;
+            c.create_btree_index_nx(&["tags"]).await?;
+            c.create_bm25_index_nx(&["txt"]).await?;
+            Ok(())
+        })
+        .await?;
+    Ok((db, c))
+}
+
+async fn run_case(ops: &[String]) -> Result<(RefState, Outcome), String> {
+    let (_db, c) = open_collection().await.map_err(|e| format!("setup: {e}"))?;
+    let mut st = RefState::default();
+    let mut out = Outcome { rows: vec![], nontrivial: false };
+    for op in ops {
+        let toks: Vec<&str> = op.split(' ').filter(|s| !s.is_empty()).collect();
+        match toks.as_slice() {
+            ["doc", a, b, tags, txt] => {
+                let d = Doc {
+                    _id: 0,
+                    a: a.parse().map_err(|_| "bad doc")?,
+                    b: if *b == "-" { None } else { Some(b.parse().map_err(|_| "bad doc")?) },
+                    tags: if *tags == "-" { vec![] } else { tags.split(',').map(|t| t.parse().unwrap_or(0)).collect() },
+                    txt: txt.replace('_', " "),
+                };
+                let id = c.add_from(&d).await.map_err(|e| format!("add: {e}"))?;
+                st.docs.insert(id, Doc { _id: id, ..d });
+            }
+            ["rm", id] => {
+                let id: u64 = id.parse().map_err(|_| "bad rm")?;
+                if st.docs.remove(&id).is_some() {
+                    c.remove(id).await.map_err(|e| format!("remove: {e}"))?;
+                }
+            }
+            ["q", which, lim, rest @ ..] => {
+                let mut it = rest.iter();
+                let f = Fl::parse(&mut it).ok_or("bad filter")?;
+                if it.next().is_some() { return Err("trailing tokens".into()); }
+                let limit: Option<usize> = if *lim == "none" || *lim == "-" { None } else { Some(lim.parse().map_err(|_| "bad limit")?) };
+                let res = match *which {
+                    "first" => c.query_ids(f.real(), limit).await,
+                    "last" => c.query_last_ids(f.real(), limit).await,
+                    _ => c.query_all_ids(f.real()).await,
+                };
+                // oracle
+                let full: Vec<u64> = st.docs.keys().copied().filter(|id| f.sat(&st, *id)).collect();
+                let expect = if f.uses_unknown_index() {
+                    None // an unknown index may or may not surface as an error (And short-circuits): not part of the property
+                } else {
+                    let l = limit.unwrap_or(MAX).min(MAX);
+                    Some(match *which {
+                        "first" => full.iter().copied().take(l).collect::<Vec<_>>(),
+                        "last" => full[full.len().saturating_sub(l)..].to_vec(),
+                        _ => full.clone(),
+                    })
+                };
+                if !full.is_empty() && res.as_ref().is_ok_and(|v| !v.is_empty()) { out.nontrivial = true; }
+                out.rows.push((op.clone(), fmt_res(&res), op.clone(), expect.map(|v| fmt_res(&Ok(v)))));
+            }
+            ["s", lim, word, rest @ ..] => {
+                let mut it = rest.iter();
+                let f = Fl::parse(&mut it).ok_or("bad filter")?;
+                let limit: usize = lim.parse().map_err(|_| "bad limit")?;
+                let search = || Some(Search { text: Some(word.to_string()), ..Default::default() });
+                // candidates in relevance order: the same search without a filter, unbounded for these sizes
+                let cands = c.search_ids(Query { search: search(), filter: None, limit: Some(500) }).await.map_err(|e| format!("search: {e}"))?;
+                let res = c.search_ids(Query { search: search(), filter: Some(f.real()), limit: Some(limit) }).await;
+                let expect = if f.uses_unknown_index() { None } else {
+                    Some(cands.iter().copied().filter(|id| f.sat(&st, *id)).take(limit.min(MAX)).collect::<Vec<_>>())
+                };
+                if res.as_ref().is_ok_and(|v| !v.is_empty()) { out.nontrivial = true; }
+                // the model gets the candidate list the real BM25 index produced (BM25 ranking is C11's business)
+                let model_req = if cands.is_empty() { String::new() } else { format!("s {limit} {} {}", join(&cands, ","), f.line()) };
+                out.rows.push((op.clone(), fmt_res(&res), model_req, expect.map(|v| fmt_res(&Ok(v)))));
+            }
+            _ => return Err(format!("bad op: {op}")),
+        }
+    }
+    Ok((st, out))
+}
+
+/// Runs one case against implementation, oracle and model. Returns (#oracle failures, #disagreements)
+/// and records them when `record` is set.
+fn check_case(rt: &tokio::runtime::Runtime, ops: &[String], model: &mut Option<ModelProc>, rep: &mut Report, record: bool) -> (usize, usize) {
+    let r = std::panic::catch_unwind(std::panic::AssertUnwindSafe(|| rt.block_on(run_case(ops))));
+    let (st, out) = match r {
+        Ok(Ok(x)) => x,
+        Ok(Err(e)) => {
+            if record { rep.hit("case_error"); rep.notes.push(format!("case could not run: {e}")); }
+            return (0, 0);
+        }
+        Err(_) => {
+            if record { rep.oracle_failure("panic", "the implementation panicked", ops, "no panic", "panic"); }
+            return (1, 0);
+        }
+    };
+    let (mut nf, mut nd) = (0, 0);
+    // state-changing ops precede queries in generated cases, but a replay/corpus file may interleave:
+    // the model is given the *final* state only when all queries come last.
+    let last_state_op = ops.iter().rposition(|o| o.starts_with("doc") || o.starts_with("rm")).unwrap_or(0);
+    let first_query = ops.iter().position(|o| o.starts_with("q ") || o.starts_with("s ")).unwrap_or(ops.len());
+    let model_ok = last_state_op < first_query;
+    if let Some(m) = model.as_mut() && model_ok {
+        for l in st.model_lines() {
+            let a = m.ask(&l);
+            if a != "ok" && record { rep.disagreement("model rejected a state line", &[l.clone()], &a, "ok"); nd += 1; }
+        }
+    }
+    for (op, got, model_req, expect) in &out.rows {
+        if record {
+            rep.hit(&format!("op:{}", op.split(' ').take(2).collect::<Vec<_>>().join("-")));
+            rep.hit(if got.starts_with("ok -") { "answer:empty" } else if got.starts_with("ok") { "answer:nonempty" } else { "answer:error" });
+        }
+        if let Some(exp) = expect && exp != got {
+            nf += 1;
+            if record {
+                let toks: Vec<&str> = op.split(' ').collect();
+                let mut it = toks[if toks[0] == "q" { 3 } else { 3 }..].iter();
+                let f = Fl::parse(&mut it);
+                let key = match (&f, toks[0]) {
+                    (Some(f), "q") if f.is_bare_btree_field() && got.starts_with("ok") => format!("query_{}:bare-btree-field:bounded-page-in-key-order", toks[1]),
+                    (Some(f), "s") if f.is_bare_btree_field() && got.starts_with("ok") => "search_ids:bare-btree-field:bounded-page-in-key-order".to_string(),
+                    (Some(f), _) => format!("{}:{}", toks[0], f.shape()),
+                    _ => "unparsed".into(),
+                };
+                let mut ctx: Vec<String> = ops.iter().filter(|o| o.starts_with("doc") || o.starts_with("rm")).cloned().collect();
+                ctx.push(op.clone());
+                rep.oracle_failure(&key, "result differs from the set-algebra reading (ascending full result, then first/last `limit`)", &ctx, exp, got);
+            }
+        }
+        if let Some(m) = model.as_mut() && model_ok && !model_req.is_empty() {
+            let ans = m.ask(model_req);
+            if record { rep.model_compared += 1; }
+            if &ans != got {
+                nd += 1;
+                if record {
+                    let mut ctx: Vec<String> = st.model_lines();
+                    ctx.push(model_req.clone());
+                    rep.disagreement("query answer", &ctx, &ans, got);
+                }
+            }
+        }
+    }
+    if record {
+        let canon = ops.join("|");
+        rep.case(&canon, out.nontrivial);
+    }
+    (nf, nd)
+}
+
 fn main() {
-    let a = vh_common::Args::parse();
-    let r = vh_common::Report::new("C03", &a, "stub");
-    r.write(&a);
+    let args = Args::parse();
+    let mut rep = Report::new(
+        "C03",
+        &args,
+        "case = generated collection (3..12 docs, values uncorrelated with ids, duplicates/arrays/missing, removals) + 24 queries \
+         (filter trees depth<=3 over _id and 3 B-tree indexes, RangeQuery trees depth<=2, limits around 0/n/MAX, first/last/all, search+filter); \
+         distinct = distinct op list; non-trivial = at least one query with a non-empty full match set answered non-empty",
+    );
+    let rt = tokio::runtime::Builder::new_current_thread().enable_all().build().unwrap();
+    let mut model = ModelProc::from_args(&args);
+    if let Some(m) = model.as_mut() {
+        let c = m.ask("consts");
+        if c != format!("MAX_SEARCH_LIMIT={}", Collection::MAX_SEARCH_LIMIT) {
+            rep.disagreement("constants", &["consts".into()], &c, &format!("MAX_SEARCH_LIMIT={}", Collection::MAX_SEARCH_LIMIT));
+        }
+    }
+
+    let mut cases: Vec<(String, Vec<String>)> = vec![];
+    if let Some(p) = &args.replay {
+        cases.push(("replay".into(), read_replay(p)));
+    } else {
+        if let Some(dir) = &args.corpus { cases.extend(read_corpus(dir)); }
+        let n = args.budget(2000, 60000);
+        for i in 0..n {
+            let mut r = Rng::for_case(args.seed, i);
+            cases.push((format!("gen{i}"), gen_case(&mut r)));
+        }
+    }
+    for (name, ops) in &cases {
+        let before_f = rep.oracle_failures.len();
+        let (nf, _nd) = check_case(&rt, ops, &mut model, &mut rep, true);
+        if nf > 0 && rep.oracle_failures.len() > before_f && args.replay.is_none() {
+            // shrink the failing case: keep the failing query, minimise the documents
+            let failing = rep.oracle_failures.last().cloned().unwrap();
+            let fops: Vec<String> = failing["ops"].as_array().unwrap().iter().map(|x| x.as_str().unwrap().to_string()).collect();
+            let small = shrink(fops, |cand| {
+                cand.iter().any(|o| o.starts_with("q ") || o.starts_with("s ")) && {
+                    let mut none = None;
+                    let mut scratch = Report::new("C03", &args, "");
+                    check_case(&rt, cand, &mut none, &mut scratch, false).0 > 0
+                }
+            }, 200);
+            let mut none = None;
+            let mut scratch = Report::new("C03", &args, "");
+            check_case(&rt, &small, &mut none, &mut scratch, true);
+            if let (Some(last), Some(fresh)) = (rep.oracle_failures.last_mut(), scratch.oracle_failures.first()) {
+                *last = fresh.clone();
+                last["case"] = json!(name);
+            }
+        }
+        if rep.samples.len() < 3 { rep.sample(json!({"case": name, "ops": ops.iter().take(40).collect::<Vec<_>>()})); }
+    }
+    rep.write(&args);
 }
